@@ -340,3 +340,6 @@ func Must(err error) {
 		os.Exit(2)
 	}
 }
+
+// NewCipher builds a cipher for an arbitrary 32-byte secret (e.g. "sealed under another key").
+func NewCipher(secret []byte) (aead.Cipher, error) { return aead.NewMiscreantCipher(secret) }
